@@ -530,6 +530,25 @@ impl SegmentIndex {
     /// Persists the current index to disk atomically using write-then-rename pattern.
     /// This ensures crash safety: if the write fails mid-way, the old index remains intact.
     pub async fn save(&self, shard_dir: &Path) -> Result<(), StoreError> {
+        // `load` removes a leftover `segments.idx.tmp`, and not every caller of `load` holds the
+        // lock that serialises the writers (the compaction worker reads the index without it):
+        // a concurrent `load` can unlink the temporary file of a save in progress, and the rename
+        // then fails with NotFound. The index on disk is untouched in that case: write it again.
+        let mut attempt = 0;
+        loop {
+            match self.save_once(shard_dir).await {
+                Err(StoreError::Io(e))
+                    if e.kind() == std::io::ErrorKind::NotFound && attempt < 5 =>
+                {
+                    attempt += 1;
+                    warn!(target: "segment_index::save", attempt, "Temporary index file vanished before the rename, retrying");
+                }
+                other => return other,
+            }
+        }
+    }
+
+    async fn save_once(&self, shard_dir: &Path) -> Result<(), StoreError> {
         let path = shard_dir.join("segments.idx");
         let mut tmp_path = path.clone();
         tmp_path.set_extension("idx.tmp");
